@@ -587,12 +587,19 @@ func (a *nilAnalysis) transfer(st nstate, in ssa.Instruction) nstate {
 		if fa, ok := x.Addr.(*ssa.FieldAddr); ok {
 			_, f, _, _ := fieldOf(fa)
 			out := make(nstate, 0, len(st))
+			path := accessPath(fa.X) + "." + f
 			for _, d := range st {
 				n := d.clone()
-				n.killField(f)
+				// documents and schemas are trees: a store through one access path does not change what another
+				// access path reaches (assumption); only the facts about this very path and what lies below it die
+				for k := range n {
+					if k == path || strings.HasPrefix(k, path+".") || strings.HasPrefix(k, path+"[") {
+						delete(n, k)
+					}
+				}
 				// the stored value's nilness becomes the field's
 				if v := a.evalNil(x.Val, d); v != -1 {
-					n[accessPath(fa.X)+"."+f] = v
+					n[path] = v
 				}
 				out = append(out, n)
 			}
@@ -659,6 +666,28 @@ func (a *nilAnalysis) analyse(fn *ssa.Function) map[*ssa.BasicBlock]nstate {
 	if a.hookEntry != nil {
 		a.hookEntry(fn, init)
 	}
+	// observers of variables and operations run only inside walkOperation, after CurrentOperation was set (C09.R4)
+	if par := fn.Parent(); par != nil {
+		allInstrs(par, func(in ssa.Instruction) {
+			ci, ok := in.(ssa.CallInstruction)
+			if !ok {
+				return
+			}
+			g := ci.Common().StaticCallee()
+			if g == nil || (g.Name() != "OnVariable" && g.Name() != "OnOperation") || len(fn.Params) == 0 {
+				return
+			}
+			for _, arg := range ci.Common().Args {
+				isFn := arg == ssa.Value(fn)
+				if mc, isMC := arg.(*ssa.MakeClosure); isMC && mc.Fn == ssa.Value(fn) {
+					isFn = true
+				}
+				if isFn {
+					init["p:"+fn.Params[0].Name()+".CurrentOperation"] = 1
+				}
+			}
+		})
+	}
 	a.curFn = fn
 	states[fn.Blocks[0]] = nstate{init}
 	work := []*ssa.BasicBlock{fn.Blocks[0]}
@@ -700,6 +729,9 @@ func (a *nilAnalysis) analyse(fn *ssa.Function) map[*ssa.BasicBlock]nstate {
 					v := a.evalNil(ph.Edges[idx], d)
 					if v != -1 {
 						n["v:"+ph.Name()] = v
+					} else if prm, isP := stripChange(ph.Edges[idx]).(*ssa.Parameter); isP && isPointerLike(prm.Type()) {
+						// the phi is the parameter itself on this path: its nil-ness is the caller's business
+						n["al:"+ph.Name()+":"+prm.Name()] = 1
 					}
 					if a.hookPhi != nil {
 						a.hookPhi(n, d, ph, ph.Edges[idx])
@@ -1034,7 +1066,26 @@ func (a *nilAnalysis) findings() (out []nilFinding, checked int) {
 			safe := true
 			for _, dj := range st {
 				if a.evalNil(d.v, dj) != 1 {
-					safe = false
+					// on this path the value is a parameter of the function (loop cursor initialised from it)
+					aliased := false
+					if ph, isPhi := root.(*ssa.Phi); isPhi {
+						for k := range dj {
+							if strings.HasPrefix(k, "al:"+ph.Name()+":") {
+								pname := k[len("al:"+ph.Name()+":"):]
+								for i, prm := range fn.Params {
+									if prm.Name() == pname {
+										aliased = true
+										if _, _, okL := a.liftable(fn, prm); okL {
+											queue = append(queue, pending{fn, liftedReq{i, "", "", d.what, 0, a.p.FuncName(fn) + ":" + pname + d.what}})
+										}
+									}
+								}
+							}
+						}
+					}
+					if !aliased {
+						safe = false
+					}
 				}
 			}
 			if why != "" {
@@ -1453,4 +1504,9 @@ func killName(d disj, name string) {
 		}
 	}
 	delete(d, "b:"+name)
+	for k := range d {
+		if strings.HasPrefix(k, "al:"+name+":") {
+			delete(d, k)
+		}
+	}
 }
